@@ -184,3 +184,14 @@ Definition c02_check (c : c02_case) : bool := forallb (fun v => (v =? 0) || (v =
 (* all runs get the same verdict *)
 Definition c02_uniform (c : c02_case) : bool :=
   match c02_verdicts c with [] => true | v :: vs => forallb (Z.eqb v) vs end.
+
+(* ------------------------------------------------------------------ side condition of the min / max laws *)
+(* values of the base column types (NULL, BIGINT, BOOLEAN, VARCHAR).  On these [vcmp_nn] is a linear order; on the
+   exact rationals produced by avg it is only a preorder (VInt 2 and VRat 2 1 compare Eq), so the reference's own
+   min / max over a column mixing the two would depend on the row order. *)
+Definition plain (v : value) : Prop := match v with VRat _ _ => False | _ => True end.
+Definition agg_dom (fn : agg_fn) (vs : list value) : Prop :=
+  match fn with FMin | FMax => Forall plain vs | _ => True end.
+
+(* the argument values of the rows with group key k, in input order *)
+Definition members {A} (k : row) (l : list (row * A)) : list A := map snd (filter (fun p => row_eqb k (fst p)) l).
